@@ -542,7 +542,9 @@ class SigmaDetections:
     ) -> Self:
         try:
             if isinstance(detections["condition"], list):
-                condition = detections["condition"]
+                # own copy: the rule's condition list is rewritten in place (filters), the
+                # parsed document it came from may be shared (action: repeat) or reused
+                condition = list(detections["condition"])
             else:
                 condition = [detections["condition"]]
         except KeyError:
